@@ -31,6 +31,18 @@ CHECKS = {
    note=TB + "Assumes the planner has no hidden state besides _ratios/_offsets and the two lru caches (validated by the "
         "fresh-process differential). Axioms: none.",
    tech="Rocq proof: cache-coherence invariant by induction over histories (parametric in the planner)", ref="DESIGN.md §4 C08"),
+ "C15": dict(
+   text="Theorems C15_reenter_by_key / C15_intern_keeps_keys_unique (any table interned by a decidable key: handing a stored key back returns the same entry and changes "
+        "nothing; dimensions are keyed by exponent tuple, prefixes by (base, exponent)), C15_unit_reenter and C15_unit_reenter_reachable (Unit(prefix, factors, any dimension) "
+        "with a stored unit's prefix and factors is that stored unit, in every state reachable by the public operations), C15_prefix_reenter. Per run: Coq checks on the "
+        "exported registry that the (prefix, factors) keys of all registered units are pairwise distinct and that every unit's constructor arguments find it; on the "
+        "implementation every registered dimension, prefix and unit goes through pickle (default and protocol 2), copy, deepcopy, the JSON codec classes, the installed "
+        "codecs and pydantic (JSON text and plain dict), plus random compound / prefixed units, mixed-base prefixes and int/float/Decimal quantities (also the SQL "
+        "composite form): identity, unchanged names/symbols, equality, magnitude type.",
+   note=TB + "Modelled, not verified: the pickle / copy / json / pydantic protocols themselves (that they call __new__ with __getnewargs_ex__ / __from_json__). Quantity JSON "
+        "stores the unit as text and inherits C13's findings (known finding). Pickle protocols 0/1 cannot pickle __slots__ classes (CPython rule). Axioms: none.",
+   tech="Rocq proof: intern-table re-entry lemmas (generic keyed table + unit table over all histories) + reflective vm_compute check of the exported registry + exhaustive codec runs",
+   ref="DESIGN.md §4 C15"),
  "C16": dict(
    text="Theorem C16_bisim_sound: for ANY scanner (the regex engine), ANY tree-building callbacks and any input, two LALR tables related by a state map that "
         "respects every shift/reduce/goto entry, the start state and the end state drive Lark's runtime (ParserState.feed_token with contextual accept sets, modelled "
